@@ -140,7 +140,14 @@ def mk_policy(rng, discrete, d=3, A=2):
 
     seed = int(rng.integers(10000))
     if discrete:
-        return ph.SoftmaxPolicy(MLP(d, 3, [6], "tanh", nnx.Rngs(seed)))
+        net = MLP(d, 3, [6], "tanh", nnx.Rngs(seed))
+        if seed % 2:
+            # a confident policy: some of the actions taken are very unlikely
+            import jax.numpy as jnp
+            b = np.zeros(3, np.float32)
+            b[seed % 3] = 20.0
+            net.output_layer.bias.value = jnp.asarray(b)
+        return ph.SoftmaxPolicy(net)
     return ph.GaussianPolicy(GaussianMLP(bool(seed % 2), d, A, [6], "tanh",
                                          nnx.Rngs(seed)))
 
@@ -195,7 +202,13 @@ def _pg(case, res, which):
     wj = jnp.asarray(w, dtype=jnp.float32)
 
     def ref(p):
-        return -jnp.mean(jax.lax.stop_gradient(wj) * p.log_probability(obs, act))
+        if case["discrete"]:
+            # log of the softmax entry, computed here (not by the head)
+            lp = jnp.take_along_axis(jax.nn.log_softmax(p.logits(obs), axis=-1),
+                                     act[:, None], axis=-1)[:, 0]
+        else:
+            lp = p.log_probability(obs, act)
+        return -jnp.mean(jax.lax.stop_gradient(wj) * lp)
 
     rl, rg = nnx.value_and_grad(ref)(pol)
     same_value(res, f"C12/pg_{which}/value", loss, rl, f"{which} pseudo-loss")
